@@ -121,6 +121,29 @@ def run_c29(chk, F, tier):
             continue
         nmut += 1
         succ = b.succ_map()
+        # a `remove` that removed nothing changed nothing: the None edge of a test on its result needs no bump
+        for w in list(W):
+            t = b.blocks[w][2]
+            if t[0] != "call" or not name(t[1]).endswith("::remove") or len(t[1]["d"]) != 1:
+                continue
+            res = {t[1]["d"][0]}
+            for bi2, blk2 in enumerate(b.blocks):
+                for st in blk2[1]:
+                    if st[0] == "a" and len(st[1]) == 1 and st[2][0] in ("ref", "use"):
+                        srcp = st[2][2] if st[2][0] == "ref" else (st[2][1][1] if st[2][1][0] in ("c", "m") else None)
+                        if srcp and len(srcp) == 1 and srcp[0] in res:
+                            res.add(st[1][0])
+            for bi2, c2 in b.calls():
+                if name(c2).endswith(("Option::<T>::is_some", "Option::<T>::is_none")) and c2["a"] and c2["a"][0][0] in ("c", "m") and c2["a"][0][1][0] in res:
+                    br = guards.bool_branch(b, bi2)
+                    if br:
+                        V.add(br[1] if name(c2).endswith("is_some") else br[0])
+            for bi2, blk2 in enumerate(b.blocks):
+                t2 = blk2[2]
+                if t2[0] == "sw" and t2[1][0] in ("c", "m"):
+                    for st in blk2[1]:
+                        if st[0] == "a" and st[1] == [t2[1][1][0]] and st[2][0] == "disc" and st[2][1][0] in res:
+                            V |= {tb for v, tb in t2[2] if v == 0}
         ok = True
         for w in W:
             if w in V:
